@@ -166,4 +166,9 @@ def canonOrderFields : List (Bytes × GoVal) → List (Bytes × GoVal)
   | (k, v) :: r => (k, canonOrder v) :: canonOrderFields r
 end
 
+/-- the encoding of the value with every map in the codec's order: two values have the same `canonEnc`
+    iff they have the same dynamic types and the same contents, whatever the order of their map
+    entries (what Go's `==` / `reflect.DeepEqual` decide) -/
+def canonEnc (v : GoVal) : String := (canonOrder v).enc
+
 end MapOrder
